@@ -27,30 +27,43 @@ TTLs far longer than a run), so a stored value stays a hit.
 
 Asyncio facts assumed (trusted base, DESIGN §3): (A1) a task runs without preemption up to its next
 suspension point, so `call` (everything `_wrapper` does before its `await`) is one atomic step; (A2) a caller
-that awaits `asyncio.shield(task)` and is cancelled gets `CancelledError` alone - `task` is not cancelled.
+that awaits `asyncio.shield(task)` and is cancelled gets `CancelledError` alone - `task` is not cancelled;
+(A3) a task whose coroutine ends with `CancelledError` (raised by the body itself: an inner future / child task
+it awaited was cancelled underneath it) is a *done* task like any other - its done-callbacks run, and every
+`await asyncio.shield(task)` raises `CancelledError` in the waiter (the shield's outer future is cancelled
+when the inner one is).  That is the third outcome `Outcome.cancelled`; it is not the `cancel` action, which
+is the cancellation of a *caller*.
+
+The key.  `key` in `call c key n o` is the *rendered cache key* `get_cache_key(func, _key_template, args,
+kwargs)` - the string under which the cache decorator stores the result - not the argument list: the facade
+hands the decorator's `key=` template to `thunder_protection(key=decor_kwargs.get("key"))`, so arguments the
+template leaves out (`@cache(ttl, key="user:{user_id}") async def get_user(session, user_id)`) do not
+distinguish calls.  `Args` / `cacheKey` / `Act.callWith` below say so; rendering itself is C08.
 -/
 namespace CashewsVerif.SingleFlight
 
 /-- function update -/
 def upd {β : Type} (f : Nat → β) (a : Nat) (b : β) : Nat → β := fun x => if x = a then b else f x
 
-/-- what an execution delivers: a returned value or a raised exception (class number) -/
+/-- what an execution delivers: a returned value, a raised exception (class number), or - the execution
+itself ended cancelled (A3) - `CancelledError` -/
 inductive Outcome where
   | ret (v : Nat)
   | exc (cls : Nat)
+  | cancelled
   deriving DecidableEq, Repr
 
 structure Exec where
   key : Nat
   remaining : Nat          -- scripted suspension points the body still has to pass
-  outcome : Outcome        -- scripted: what the body returns / raises (for a hit: the stored value)
+  outcome : Outcome        -- scripted: what the body returns / raises / that it ends cancelled (for a hit: the stored value)
   finished : Bool
   hit : Bool               -- the cache decorator found the value: the wrapped body is not run
   deriving DecidableEq, Repr
 
 inductive CSt where
   | waiting                -- suspended in `await asyncio.shield(task)`
-  | got (o : Outcome)      -- the await delivered the execution's result / exception
+  | got (o : Outcome)      -- the await delivered the execution's result / exception / CancelledError (A3)
   | cancelled              -- the caller's own task was cancelled
   deriving DecidableEq, Repr
 
@@ -74,9 +87,23 @@ def init (caching : Bool) : SfSt :=
 inductive Act where
   | call (c key n : Nat) (o : Outcome)   -- caller `c` calls with `key`; if it starts an execution, that one has script (n, o)
   | bodyStep (e : Nat)                   -- the body of `e` passes one suspension point
-  | finish (e : Nat)                     -- the body of `e` returns / raises; done-callbacks run
+  | finish (e : Nat)                     -- the body of `e` returns / raises / ends cancelled; done-callbacks run
   | cancel (c : Nat)                     -- `c`'s task is cancelled
   deriving DecidableEq, Repr
+
+/-- The arguments of one call of the decorated function, as far as single-flight can see them: the part the
+key template mentions (already rendered: a number stands for the key string) and everything else (a
+per-request session object, a flag the template leaves out, ...). -/
+structure Args where
+  keyed : Nat
+  ignored : Nat
+  deriving DecidableEq, Repr
+
+/-- `_key = get_cache_key(func, _key_template, args, kwargs)`: depends on the keyed part only -/
+def cacheKey (a : Args) : Nat := a.keyed
+
+/-- a call with full arguments is a call with their cache key -/
+def Act.callWith (c : Nat) (a : Args) (n : Nat) (o : Outcome) : Act := .call c (cacheKey a) n o
 
 /-- the execution a creating call starts: a hit of the cache decorator, or the scripted body -/
 def newExec (s : SfSt) (key n : Nat) (o : Outcome) : Exec :=
@@ -124,7 +151,8 @@ def stepFinish (s : SfSt) (e : Nat) : SfSt :=
                cached :=                                    -- cache decorator: `backend.set(key, result)` for a returned value
                  match x.outcome with
                  | .ret v => if s.caching = true ∧ x.hit = false then upd s.cached x.key (some v) else s.cached
-                 | .exc _ => s.cached }
+                 | .exc _ => s.cached
+                 | .cancelled => s.cached }
 
 def stepCancel (s : SfSt) (c : Nat) : SfSt :=
   match s.callers c with
